@@ -346,9 +346,99 @@ CHECKS["C11"] = {
                                     "union's bytes"],
 }
 
+CHECKS["C17"] = {
+    "level": "exploration",
+    "shards": {"quick": 16, "thorough": 32},
+    "budget": {"quick": 45, "thorough": 400},
+    "rule": "fixed-size generated definitions with 1-10 (thorough: 1-40) fields, each loaded together with a twin "
+            "structure of identical fields under another name; pairs of instances (parsed/constructed, identical or "
+            "differing in exactly one field) are compared with a field-wise model for ==, !=, hash and bool; keyword/"
+            "positional construction is compared with assignment on a default instance; after single-field assignments "
+            "dumps() must equal the model encoding and differ from the previous dump only inside the field's extent; "
+            "a monitor on _update_fields checks the generated code objects of every class built; distinct = "
+            "(definition, config, value pair or assignment)",
+    "anchors": ["types/structure.py"],
+    "required_reach": ["types/structure.py:_patch_attributes", "types/structure.py:_generate__eq__",
+                       "types/structure.py:_generate__hash__", "types/structure.py:_generate__bool__",
+                       "types/structure.py:_generate_structure__init__", "types/structure.py:StructureMetaType._update_fields",
+                       "types/structure.py:attrsetter"],
+    "required_cells": ["align:True", "align:False", "fields:0+", "fields:5+", "fields:10+", "nested-struct-in-union"],
+    "assumptions": ASSUME_COMMON + ["NaN-containing values are not used (NaN != NaN as in Python)"],
+}
+
+CHECKS["C14"] = {
+    "level": "exploration",
+    "shards": {"quick": 16, "thorough": 32},
+    "budget": {"quick": 45, "thorough": 400},
+    "rule": "random histories of 10-24 operations over three cstruct objects (two with the same type names and "
+            "definitions but different byte order, one with other definitions): default and keyword construction, "
+            "in-place mutation of lists / nested structures / array elements, parse, dump, failed parse, endianness "
+            "change, further load(), add_type; after every step all live instances are re-read and compared with their "
+            "expected values, every parse is replayed on a fresh cstruct (isolation), and an instance-graph monitor "
+            "checks that no mutable object is shared between two instances or with the defaults stored in the class's "
+            "generated __init__; distinct = distinct history",
+    "anchors": ["types/structure.py", "types/base.py", "cstruct.py", "types/packed.py"],
+    "required_reach": ["types/structure.py:_generate_structure__init__", "types/structure.py:StructureMetaType.__call__",
+                       "types/base.py:BaseArray.__default__", "types/base.py:MetaType.__default__",
+                       "cstruct.py:cstruct.add_type", "types/packed.py:_struct"],
+    "required_cells": ["op:default", "op:keyword", "op:mutate", "op:parse", "op:failparse", "op:endian", "op:load",
+                       "op:add_type", "two-cstructs-same-names"],
+    "assumptions": ASSUME_COMMON,
+}
+
+CHECKS["C18"] = {
+    "level": "exploration",
+    "shards": {"quick": 16, "thorough": 32},
+    "budget": {"quick": 45, "thorough": 400},
+    "rule": GEN_RULE + "; the field list of each generated structure is replayed through random splits into "
+                       "add_field / start_update batches / commits on an initially empty (optionally compiled) class and "
+                       "compared with the one-shot class: layout signature, compiled state, generated reader source, "
+                       "field tables, parse/dump/_sizes/bool/eq/hash/default behaviour; self-referential definitions go "
+                       "through the parser's pre-registration path",
+    "anchors": ["types/structure.py", "parser.py"],
+    "required_reach": ["types/structure.py:StructureMetaType.add_field", "types/structure.py:StructureMetaType.start_update",
+                       "types/structure.py:StructureMetaType.commit", "types/structure.py:StructureMetaType._update_fields",
+                       "parser.py:TokenParser._struct", "compiler.py:Compiler.compile_read"],
+    "required_cells": ["pattern:all-single", "pattern:mixed", "transition:becomes-dynamic", "transition:gains-bit-fields",
+                       "transition:alignment-grows", "self-reference"],
+    "assumptions": ASSUME_COMMON,
+}
+
 NOT_APPLICABLE = {}
 
 MANIFEST_TEXT = {
+    "C18": {
+        "text": "Differential runtime testing of histories of add_field/start_update/commit against the one-shot class "
+                "for generated field lists in every configuration: layout, compiled state, the generated reader's "
+                "source text, field tables and observable behaviour must be identical after the last commit; "
+                "self-referential definitions are walked through their pointers. Held-on-observed; split patterns "
+                "and transitions seen are accounted.",
+        "design_ref": "DESIGN.md 4 C18",
+        "note": "named top-level structures already take the incremental path inside the parser, so every other check "
+                "exercises it as well",
+        "technique": "history-vs-one-shot differential testing incl. generated source text",
+    },
+    "C14": {
+        "text": "History-based runtime monitoring over several live cstruct objects and instances: random operation "
+                "histories (construct / mutate in place / parse / dump / failed parse / endian switch / load / "
+                "add_type) are executed on the real library; after every step every live instance is compared with "
+                "its expected value, parses are replayed in isolation on a fresh cstruct, and an object-graph monitor "
+                "asserts that instances share no mutable object with each other or with the class defaults. "
+                "Held-on-observed.",
+        "design_ref": "DESIGN.md 4 C14",
+        "note": "the graph walker descends only through lists, Structure instances and union proxies and never "
+                "touches pointers, classes or streams",
+        "technique": "operation histories with replay-in-isolation and an object-graph aliasing monitor",
+    },
+    "C17": {
+        "text": "Runtime monitoring of the generated methods of real structure classes: a hook on _update_fields checks "
+                "the patched code objects of every class built in the process (many classes sharing cached templates), "
+                "and field-wise oracles judge ==/!=/hash/bool on instance pairs, constructor forms against assignment "
+                "on defaults, and byte locality of single-field assignments against the layout model. Held-on-observed.",
+        "design_ref": "DESIGN.md 4 C17",
+        "note": "equality of union-typed members is by their bytes; pairs differ only in non-union fields",
+        "technique": "code-object invariant hook + field-wise model oracle on generated instance pairs",
+    },
     "C11": {
         "text": "History-based runtime monitoring of real union objects: a shadow byte buffer (the sequential "
                 "specification) is updated alongside random assignment histories over all routes, and after every "
